@@ -28,7 +28,8 @@ ASSUMPTIONS = ["freshness is judged on the arrival sequence (V, T) with T the el
                "ending with the same element"]
 EXPECTED_PROBES = ["reordered", "duplicate", "wraparound", "near_2_23", "time_rule_plus", "time_rule_minus", "final_response",
                    "final_error_code", "icmp_end", "not_observable", "late_notification_con", "late_notification_non",
-                   "iterator_busy_at_end", "blockwise_wrapper", "companion_observation", "peer_request_under_observation_token", "wall_clock_step"]
+                   "iterator_busy_at_end", "blockwise_wrapper", "companion_observation", "peer_request_under_observation_token", "wall_clock_step",
+                   "iteration_started_late", "iteration_resumed_with_new_loop", "iterator_wait_timed_out"]
 
 M24 = 1 << 24
 M23 = 1 << 23
@@ -74,6 +75,15 @@ def gen(r, tier):
                            "by": r.choice([-3600.0, -200.0, -129.0, 129.0, 200.0, 3600.0, 86400.0])})
     events.sort(key=lambda e: e["at"])
     consumer = {"iter": r.choice([None, 0.0, 0.0, 0.05, 0.5, 3.0]), "callbacks": True}
+    if consumer["iter"] is not None:
+        # how the application consumes: one loop from the start; a loop entered late; waits with time-outs; a second loop
+        consumer["style"] = r.weighted([(5, "for"), (2, "timeouts"), (2, "two_loops")])
+        consumer["start"] = r.choice([0.0, 0.0, 0.0, 0.3, 2.0, 20.0, 150.0])
+        if consumer["style"] == "timeouts":
+            consumer["timeouts"] = [r.choice([0.01, 0.3, 1.0, 5.0, 60.0, 200.0]) for _ in range(r.randint(1, 4))]
+        elif consumer["style"] == "two_loops":
+            consumer["first_items"] = r.randint(1, 3)
+            consumer["pause"] = r.choice([0.0, 0.5, 5.0, 150.0])
     # a second observation of the same client at the same server (another resource, another token) with a steady
     # stream of in-order notifications: what happens to one observation must not spill over to the other
     return {"first": first, "events": events, "consumer": consumer, "blockwise": r.chance(0.25),
@@ -102,6 +112,14 @@ def systematic(tier):
                 for it in (None, 0.0, 1.5):
                     out.append({"first": {"observe": 9, "delay": 0.005}, "events": events,
                                 "consumer": {"iter": it, "callbacks": True}, "blockwise": False})
+                if n == 3:
+                    # the ways an application may consume the iterator
+                    for cons in ({"style": "for", "start": 2.5}, {"style": "for", "start": 10.0},
+                                 {"style": "timeouts", "timeouts": [0.4]}, {"style": "timeouts", "timeouts": [0.4], "start": 1.7},
+                                 {"style": "two_loops", "first_items": 1, "pause": 1.2},
+                                 {"style": "two_loops", "first_items": 2, "pause": 10.0}):
+                        out.append({"first": {"observe": 9, "delay": 0.005}, "events": events,
+                                    "consumer": dict({"iter": 0.0, "callbacks": True}, **cons), "blockwise": False})
     return out
 
 
@@ -120,6 +138,15 @@ def shrink(scn):
     if scn.get("blockwise"):
         c = dict(scn)
         c["blockwise"] = False
+        yield c
+    cons = scn["consumer"]
+    if cons.get("start"):
+        c = dict(scn)
+        c["consumer"] = dict(cons, start=0.0)
+        yield c
+    if cons.get("style", "for") != "for":
+        c = dict(scn)
+        c["consumer"] = {k: v for k, v in cons.items() if k not in ("style", "timeouts", "first_items", "pause")}
         yield c
 
 
@@ -258,21 +285,70 @@ def execute(sim, scn):
         obs.register_callback(cb)
         obs.register_errback(eb)
         d = scn["consumer"]["iter"]
+        style = scn["consumer"].get("style", "for")
+        d0 = scn["consumer"].get("start", 0.0)
         if d is not None:
+            def got(m, loop_no):
+                it_log.append((loop.now, bytes(m.payload), m.opt.observe, loop_no))
+                sim.log("app", "iter", bytes(m.payload).decode())
+
+            async def plain_loop(loop_no, limit=None):
+                n = 0
+                async for m in obs:
+                    got(m, loop_no)
+                    n += 1
+                    if limit is not None and n >= limit:
+                        return False  # (left with `break`: the iterator is abandoned)
+                    if d:
+                        await asyncio.sleep(d)
+                return True
+
             async def consume():
                 try:
-                    async for m in obs:
-                        it_log.append((loop.now, bytes(m.payload), m.opt.observe))
-                        sim.log("app", "iter", bytes(m.payload).decode())
-                        if d:
-                            await asyncio.sleep(d)
+                    if d0:
+                        # the application turns to the observation only after a while (it was busy with the first
+                        # response): what arrived meanwhile must not be lost
+                        sim.probe("iteration_started_late")
+                        await asyncio.sleep(d0)
+                    if style == "two_loops":
+                        # one `async for` left after a few items, another one entered later on the same observation
+                        sim.probe("iteration_resumed_with_new_loop")
+                        if not await plain_loop(0, limit=scn["consumer"].get("first_items", 1)):
+                            await asyncio.sleep(scn["consumer"].get("pause", 1.0))
+                            await plain_loop(1)
+                    elif style == "timeouts":
+                        # every wait for the next item has a time-out (asyncio.wait_for cancels the waiting at its
+                        # await point); after a time-out the application simply waits again
+                        tmo = scn["consumer"].get("timeouts", [1.0])
+                        it = obs.__aiter__()
+                        k = 0
+                        while True:
+                            try:
+                                if k < 60:
+                                    m = await asyncio.wait_for(it.__anext__(), tmo[k % len(tmo)])
+                                else:
+                                    m = await it.__anext__()
+                            except asyncio.TimeoutError:
+                                k += 1
+                                sim.probe("iterator_wait_timed_out")
+                                continue
+                            except StopAsyncIteration:
+                                break
+                            got(m, 0)
+                            if d:
+                                await asyncio.sleep(d)
+                    else:
+                        await plain_loop(0)
                     it_end.append((loop.now, "stop"))
                     sim.log("app", "iter-end", "stop")
-                except Exception as e:
+                except BaseException as e:
+                    if isinstance(e, (SystemExit, KeyboardInterrupt, GeneratorExit)):
+                        raise
                     it_end.append((loop.now, e))
                     sim.log("app", "iter-end", type(e).__name__)
-            loop.create_task(consume())
+            keep.append(loop.create_task(consume()))
 
+    keep = []
     comp_log = []
     comp_err = []
 
@@ -474,7 +550,11 @@ def execute(sim, scn):
         check_rejections(sim, server, me, delivered, t_end=end["t"], pos_end=end["pos"], ident=ident)
     # (3) iterator: sub-sequence of the callback deliveries, same last element, ends as the errback says
     if scn["consumer"]["iter"] is not None:
-        it = [(p, v) for (t, p, v) in it_log]
+        it = []
+        for n_, (t, p, v, loop_no) in enumerate(it_log):
+            if n_ and it_log[n_ - 1][3] != loop_no and it and it[-1] == (p, v):
+                continue  # a new loop is first handed the latest item again (it is a new listener)
+            it.append((p, v))
         full = got
         j = 0
         ok = True
